@@ -270,11 +270,15 @@ func (r *rec) pick(b *board.Board, lm []move.Move) move.Move {
 func (r *rec) play(corpus []string, plies int, rawEp bool) {
 	for !r.full() {
 		var b *board.Board
-		first := move.Move(0)
+		var forced []move.Move
 		if r.rng.Intn(6) == 0 {
-			fen, from, to := gen.EpStress(r.rng)
+			fen, mv := gen.EpStress2(r.rng)
 			b = r.load(fen)
-			first = move.From(Square(from)) | move.To(Square(to))
+			if r.rng.Intn(5) != 0 {
+				for i := 0; i+1 < len(mv); i += 2 {
+					forced = append(forced, move.From(Square(mv[i]))|move.To(Square(mv[i+1])))
+				}
+			}
 		} else {
 			b = r.load(r.source(corpus, rawEp))
 		}
@@ -284,8 +288,12 @@ func (r *rec) play(corpus []string, plies int, rawEp bool) {
 				break
 			}
 			m := r.pick(b, lm)
-			if ply == 0 && first != 0 && contains(lm, first) && r.rng.Intn(5) != 0 {
-				m = first
+			if ply < len(forced) {
+				if contains(lm, forced[ply]) {
+					m = forced[ply]
+				} else {
+					forced = nil
+				}
 			}
 			r.make(b, m, true)
 		}
@@ -302,6 +310,10 @@ func (r *rec) positions(corpus []string, rawEp bool) {
 		r.load(corpus[i])
 	}
 	for !r.full() {
+		if r.obs["status"] && r.rng.Intn(2) == 0 {
+			r.load(gen.BoxedKing(r.rng, r.rng.Intn(2) == 0))
+			continue
+		}
 		pr := profiles[r.rng.Intn(len(profiles))]
 		pr.RawEp = rawEp
 		r.load(gen.RandomValid(r.rng, pr))
@@ -312,10 +324,27 @@ func (r *rec) positions(corpus []string, rawEp bool) {
 // immediately undone, as the search does), null moves where the mover is not in check.
 func (r *rec) walk(corpus []string, depth int) {
 	for !r.full() {
+		if r.rng.Intn(5) == 0 {
+			// double pushes that set an en-passant target, then every move and the null move below them
+			fen, _ := gen.EpStress2(r.rng)
+			r.tree(r.load(fen), 2)
+			continue
+		}
 		b := r.load(r.source(corpus, false))
-		if r.rng.Intn(2) == 0 {
+		switch r.rng.Intn(8) {
+		case 0, 1, 2:
 			r.tree(b, 2)
-		} else {
+		case 3:
+			// long game first: the hash history grows past its initial capacity, clocks get large
+			for i, n := 0, 90+r.rng.Intn(80); i < n && !r.full(); i++ {
+				lm := proj.Playable(b, r.ms)
+				if len(lm) == 0 {
+					break
+				}
+				r.make(b, r.pickQuiet(b, lm), true)
+			}
+			r.randomWalk(b, depth)
+		default:
 			r.randomWalk(b, depth)
 		}
 	}
@@ -408,6 +437,20 @@ func (r *rec) randomWalk(b *board.Board, depth int) {
 			r.undo(b, f.m, f.rv)
 		}
 	}
+}
+
+// pickQuiet prefers non-captures by pieces so that games last
+func (r *rec) pickQuiet(b *board.Board, lm []move.Move) move.Move {
+	var quiet []move.Move
+	for _, x := range lm {
+		if b.SquaresToPiece[x.To()] == NoPiece && b.SquaresToPiece[x.From()] != Pawn {
+			quiet = append(quiet, x)
+		}
+	}
+	if len(quiet) > 0 && r.rng.Intn(10) < 9 {
+		return quiet[r.rng.Intn(len(quiet))]
+	}
+	return lm[r.rng.Intn(len(lm))]
 }
 
 func (r *rec) pickPseudo(b *board.Board, ps []move.Move) move.Move {
@@ -529,7 +572,15 @@ func (r *rec) nullTransp(rootFen string) {
 // shuffle: repetition-dense histories (C10)
 func (r *rec) shuffle(corpus []string, plies int) {
 	for !r.full() {
-		b := r.load(r.source(corpus, true))
+		var b *board.Board
+		var forced move.Move
+		if r.rng.Intn(4) == 0 {
+			fen, mv := gen.DeadEpStress(r.rng)
+			b = r.load(fen)
+			forced = move.From(Square(mv[0])) | move.To(Square(mv[1]))
+		} else {
+			b = r.load(r.source(corpus, true))
+		}
 		var undoable []move.Move // reverses of recent reversible moves
 		for ply := 0; ply < plies && !r.full(); ply++ {
 			lm := proj.Playable(b, r.ms)
@@ -537,6 +588,11 @@ func (r *rec) shuffle(corpus []string, plies int) {
 				break
 			}
 			var m move.Move
+			if ply == 0 && forced != 0 && contains(lm, forced) {
+				undoable = append(undoable, forced)
+				r.make(b, forced, true)
+				continue
+			}
 			// prefer moving a piece back (oscillation); sometimes detour
 			back := move.Move(0)
 			if len(undoable) >= 2 {
